@@ -31,12 +31,21 @@ def par(jobs, n=4):
     if err: raise err[0]
     return res
 
+def compact(x):
+    """octet lists -> bytes (the thorough corpora hold some 10^5 cases)"""
+    if isinstance(x, list):
+        if x and all(isinstance(e, int) and 0 <= e <= 255 for e in x): return bytes(x)
+        return [compact(e) for e in x]
+    if isinstance(x, dict): return {k: compact(v) for k, v in x.items()}
+    return x
+
 def gen(ctx, module, cfg, label=None, timeout=1500):
-    r = common.tlc(module, cfg=cfg, workers=1, xss="256m", timeout=timeout)
+    r = common.tlc(module, cfg=cfg, workers=1, xss="256m", xmx="3g", timeout=timeout)
     if r.rc != 0:
         raise common.Infra("reference property failed inside TLC on %s/%s (spec bug, not a code verdict): %s\n%s"
                            % (module, cfg, r.violation, r.out[-3000:]))
-    cases = common.tlc_printed_json(r.out)
+    cases = [compact(c) for c in common.tlc_printed_json(r.out)]
+    r.out = r.out[-2000:]
     if "_chain" in cfg:        # only the long histories (EmitFrom) are printed there
         if not cases: raise common.Infra("no case emitted on %s" % cfg)
     elif len(cases) != r.distinct:
@@ -63,21 +72,23 @@ def dns_items(lst, is_q):
     return "|".join(out)
 
 def dns_msg_part(ctx, exe, cfgs, G):
-    results = [G[("GenDnsMsg", c)] for c in cfgs]
+    results = [G.pop(("GenDnsMsg", c)) for c in cfgs]
     seen = set(); nontriv = 0; classes = {}
     for cfg, (r, cases) in zip(cfgs, results):
         ctx.tlc_stats(r, "GenDnsMsg/" + cfg)
         lines = ["dnsmsg %d %s" % (c["cap"], ";".join(dns_op_token(o) for o in c["ops"])) for c in cases]
         idx = [i for i, c in enumerate(cases) if c["ops"]]
-        res = common.batch_run(exe, [lines[i] for i in idx], timeout=600)
-        for i, a in zip(idx, res):
+        runs = []
+        for bname, bexe in exe:
+            runs += [(i, a, bname) for i, a in zip(idx, common.batch_run(bexe, [lines[i] for i in idx], timeout=600))]
+        for i, a, bname in runs:
             c = cases[i]; ln = lines[i]; ops = c["ops"]; last = ops[-1]
             ctx.add(evaluations=1)
             classes[(last["op"], last["rc"])] = classes.get((last["op"], last["rc"]), 0) + 1
             if ln not in seen:
                 seen.add(ln)
                 if len(ops) > 1: nontriv += 1
-            rp = {"case": ln, "cfg": cfg}
+            rp = {"case": ln, "cfg": cfg, "build": bname}
             if isinstance(a, dict):
                 k = a["crash"]; ctx.fail("dns:%s:%s:%s" % (OPFN[last["op"]], k[0], k[1]), a["raw"], rp); continue
             _, f = kv(a)
@@ -120,12 +131,17 @@ def dns_msg_part(ctx, exe, cfgs, G):
                         "cnt": "%d,%d,%d,%d" % (len(p["qd"]), len(p["an"]), len(p["ns"]), len(p["ar"])),
                         "qd": dns_items(p["qd"], True), "an": dns_items(p["an"], False),
                         "ns": dns_items(p["ns"], False), "ar": dns_items(p["ar"], False), "perr": "0"}
+                ctx.add(traces_validated_against_impl=1)
+                if len(ops) >= 4 and "dns_sample" not in ctx.cov:
+                    ctx.cov["dns_sample"] = 1
+                    ctx.add(samples=[{"dns_history": ln, "reference_message": hx(c["msg"]), "driver": a[:300]}])
                 for k2 in ("val", "sizeget", "info", "cnt", "qd", "an", "ns", "ar", "perr"):
                     if f.get(k2) != want[k2]:
                         ctx.fail("dns:parse-back:%s" % {"val": "dns_msg_validate", "sizeget": "dns_msg_size_get", "info": "dns_msg_info_get",
                                                         "cnt": "counters", "qd": "question", "perr": "get_data-error"}.get(k2, "rr-" + k2),
                                  "%s\nfield %s expected %s\ngot %s" % (ln, k2, want[k2], a), rp)
                         break
+    ctx.cov.pop("dns_sample", None)
     ctx.add(distinct_nontrivial=nontriv, dns_histories=len(seen))
     # vacuity: every builder step must have been seen succeeding and being refused for lack of space
     for op in ("hdr", "q", "rr", "opt"):
@@ -135,15 +151,17 @@ def dns_msg_part(ctx, exe, cfgs, G):
     ctx.cov["dns_last_step_classes"] = {"%s/%s" % k: v for k, v in sorted(classes.items())}
 
 def dns_name_part(ctx, exe, cfgs, G):
-    results = [G[("GenDnsName", c)] for c in cfgs]
+    results = [G.pop(("GenDnsName", c)) for c in cfgs]
     n = 0; cls = {}
     for cfg, (r, cases) in zip(cfgs, results):
         ctx.tlc_stats(r, "GenDnsName/" + cfg)
         lines = ["dnsname %s %s" % (hx(c["name"]), hx(c["wire"])) for c in cases]
-        res = common.batch_run(exe, lines, timeout=300)
-        for c, ln, a in zip(cases, lines, res):
+        runs = []
+        for bname, bexe in exe:
+            runs += [(c, ln, a, bname) for c, ln, a in zip(cases, lines, common.batch_run(bexe, lines, timeout=300))]
+        for c, ln, a, bname in runs:
             ctx.add(evaluations=1); cls[c["class"]] = cls.get(c["class"], 0) + 1
-            rp = {"case": ln, "cfg": cfg, "lens": c["lens"]}
+            rp = {"case": ln, "cfg": cfg, "lens": str(c["lens"]), "build": bname}
             if isinstance(a, dict):
                 k = a["crash"]; ctx.fail("dnsname:%s:%s" % (k[0], k[1]), a["raw"], rp); continue
             _, f = kv(a)
@@ -209,25 +227,27 @@ def rad_steps_ok(ctx, ops, rcs, ln, a, rp, report=True):
         elif o["rc"] == "unspec": acc = (rc == 0)
         if k:
             good = False
-            if report: ctx.fail(k, "step %d %s\n%s\n%s" % (j, json.dumps(o), ln, a), rp)
+            if report: ctx.fail(k, "step %d %s\n%s\n%s" % (j, json.dumps(o, default=str), ln, a), rp)
             break
     return good, acc
 
 def rad_build_part(ctx, exe, cfgs, G):
-    results = [G[("GenRadius", c)] for c in cfgs]
+    results = [G.pop(("GenRadius", c)) for c in cfgs]
     corpus = []; classes = {}; seen = set(); nontriv = 0
     for cfg, (r, cases) in zip(cfgs, results):
         ctx.tlc_stats(r, "GenRadius/" + cfg)
         idx = [i for i, c in enumerate(cases) if c["ops"]]
         lines = ["radb %d %s" % (cases[i]["cap"], ";".join(rad_op_token(o) for o in cases[i]["ops"])) for i in idx]
-        res = common.batch_run(exe, lines, timeout=600)
-        for i, ln, a in zip(idx, lines, res):
+        runs = []
+        for bname, bexe in exe:
+            runs += [(i, ln, a, bname) for i, ln, a in zip(idx, lines, common.batch_run(bexe, lines, timeout=600))]
+        for i, ln, a, bname in runs:
             c = cases[i]; ops = c["ops"]; last = ops[-1]
             ctx.add(evaluations=1)
             kcls = (last["op"] if last["op"] != "add" else "add", last["rc"]); classes[kcls] = classes.get(kcls, 0) + 1
             if ln not in seen:
                 seen.add(ln); nontriv += 1 if len(ops) > 1 else 0
-            rp = {"case": ln, "cfg": cfg}
+            rp = {"case": ln, "cfg": cfg, "build": bname}
             if isinstance(a, dict):
                 k = a["crash"]; ctx.fail("radius:%s:%s:%s" % (rad_fn(last), k[0], k[1]), a["raw"], rp); continue
             _, f = kv(a)
@@ -249,7 +269,11 @@ def rad_build_part(ctx, exe, cfgs, G):
                 ctx.fail("radius:%s:packet-octets-differ" % rad_fn(who), "%s\nexpected %s\ngot      %s" % (ln, hx(exp), hx(got)), rp)
                 continue
             if last["rc"] == "ok" and ops[0]["rc"] == "ok":
-                corpus.append(c)
+                ctx.add(traces_validated_against_impl=1)
+                if len(ops) >= 4 and "rad_sample" not in ctx.cov:
+                    ctx.cov["rad_sample"] = 1
+                    ctx.add(samples=[{"radius_history": ln, "reference_packet": hx(c["pkt"]), "driver": a[:300]}])
+                if bname == exe[0][0] and (len(corpus) < 4000 or i % 37 == 0): corpus.append(c)
                 if (f["chk"] == "0") != c["wf"]:
                     ctx.fail("radius:radius_pkt_chk:verdict-on-built-packet", "%s\nreference well-formed=%s\n%s" % (ln, c["wf"], a), rp); continue
                 want_attrs = "|".join("%d:%s" % (x["t"], hx(x["v"])) for x in c["attrs"]) or "-"
@@ -263,6 +287,7 @@ def rad_build_part(ctx, exe, cfgs, G):
                     want = ("0:%s" % hx(c["concat"][k])) if c["find"][k] != 65535 else "-1:-"
                     if got_c[k] != want:
                         ctx.fail("radius:listing:radius_pkt_attr_get_data_to_buf", "%s\ntype %d expected %s\n%s" % (ln, t, want, a), rp); break
+    ctx.cov.pop("rad_sample", None)
     ctx.add(distinct_nontrivial=nontriv, radius_histories=len(seen))
     ctx.cov["radius_last_step_classes"] = {"%s/%s" % k: v for k, v in sorted(classes.items())}
     for need in (("init", "ok"), ("init", "nospace"), ("init", "invalid"), ("add", "ok"), ("add", "nospace"), ("add", "invalid"), ("add", "exists")):
@@ -291,7 +316,7 @@ def sign_scenarios(ctx, corpus, rng):
     def reqhdr(code): return bytes([code, rng.randrange(256), 0, 20]) + rb(rng, 16)
     def alts_for(s): return [bytes([s[0] ^ 1]) + s[1:], s[:-1], s + b"x"] if s else [b"x"]
     # every code x Message-Authenticator variant (none / appended by sign / placed early by the builder)
-    for code, reqcode in [(c, REQ_OF.get(c)) for c in sorted(CODE_NAME)] + [(5, 12), (2, 12)]:   # RFC 5997: replies to Status-Server
+    for code, reqcode in ([(c, REQ_OF.get(c)) for c in sorted(CODE_NAME)] + [(5, 12), (2, 12)]) * (1 if quick else 4):   # RFC 5997: replies to Status-Server
         req = reqhdr(reqcode) if reqcode else None
         au = hx(req[4:20]) if req else hx(rb(rng, 16))
         for var in (0, 1, 2):
@@ -325,13 +350,17 @@ def sign_scenarios(ctx, corpus, rng):
         add(ops, cap=c["cap"] + rng.choice([0, 18, 40]), addma=0 if has_ma else rng.choice([0, 1]), tag="tlc-history")
     # single-octet corruptions and wrong secrets of a few signed packets
     def corrupt(ops, addma, req, secret, tag):
-        add(ops, addma=addma, req=req, secret=secret, mask=rng.choice([0x01, 0x80, 0xFF, 0x10, 0x55]), alts=alts_for(secret), deep=1, tag=tag)
+        masks = [rng.choice([0x01, 0x80, 0xFF, 0x10, 0x55])] if quick else [0x01, 0x80, 0xFF, rng.randrange(2, 255)]
+        for mk in masks:
+            add(ops, addma=addma, req=req, secret=secret, mask=mk, alts=alts_for(secret) if mk == masks[0] else None, deep=1 if mk == masks[0] else 0, tag=tag)
     s1, s2, s3 = b"xyzzy5461", nz(rng, 16), nz(rng, 20)
     corrupt(["i,1,%d,%s" % (rng.randrange(256), hx(rb(rng, 16))), "a,1,%s" % hx(nz(rng, 3))], 1, None, s1, "corrupt:Access-Request+MA")
     rq = reqhdr(1)
     corrupt(["i,2,%d,%s" % (rq[1], hx(rq[4:20])), "a,18,%s" % hx(nz(rng, 2))], 1, rq, s2, "corrupt:Access-Accept+MA")
     corrupt(["i,4,%d,-" % rng.randrange(256), "u,40,00000001", "a,44,%s" % hx(nz(rng, 3))], 0, None, s3, "corrupt:Accounting-Request")
     if True:
+        if not quick:     # several MD5 blocks, Message-Authenticator in the middle
+            corrupt(["i,1,%d,%s" % (rng.randrange(256), hx(rb(rng, 16))), "a,1,%s" % hx(nz(rng, 70)), "a,80,-", "a,24,%s" % hx(rb(rng, 60))], 0, None, nz(rng, 30), "corrupt:Access-Request+MA:long")
         rq = reqhdr(43)
         corrupt(["i,44,%d,%s" % (rq[1], hx(rq[4:20])), "a,80,-", "a,18,6f6b"], 0, rq, nz(rng, 65), "corrupt:CoA-ACK+MA")
         corrupt(["i,1,%d,%s" % (rng.randrange(256), hx(rb(rng, 16))), "w,2,%s" % hx(nz(rng, 5) + bytes(11)), "a,1,6162"], 1, None, nz(rng, 9), "corrupt:Access-Request+password+MA")
@@ -342,7 +371,8 @@ def sign_scenarios(ctx, corpus, rng):
         corrupt(["i,42,%d,%s" % (rq[1], hx(rq[4:20])), "u,101,000001f7"], 0, rq, s3, "corrupt:Disconnect-NAK")
     return sc
 
-def rad_sign_part(ctx, exe, corpus):
+def rad_sign_part(ctx, exes, corpus):
+    exe = exes[0][1]
     rng = random.Random(ctx.seed * 7919 + (0 if ctx.quick else 1))
     sc = sign_scenarios(ctx, corpus, rng)
     lines = ["rads %d %s %d %s %s %s %s" % (s["cap"], hx(s["secret"]), s["addma"], hx(s["req"]) if s["req"] else "-",
@@ -401,7 +431,7 @@ def rad_sign_part(ctx, exe, corpus):
         path = os.path.join(d, "radius-%d.ndjson" % k)
         with open(path, "w") as fh:
             for i in chunks[k]: fh.write(json.dumps(events[i]) + "\n")
-        r = common.tlc("TraceRadius", workers=1, xss="256m", env={"TRACE": path}, timeout=1500)
+        r = common.tlc("TraceRadius", workers=1, xss="256m", xmx="2g", env={"TRACE": path}, timeout=1500)
         if r.rc != 0: raise common.Infra("TraceRadius failed: %s\n%s" % (r.violation, r.out[-3000:]))
         v = common.tlc_printed_json(r.out)
         if len(v) != len(chunks[k]): raise common.Infra("TraceRadius lost verdicts: %d of %d\n%s" % (len(v), len(chunks[k]), r.out[-2000:]))
@@ -462,7 +492,10 @@ def rad_sign_part(ctx, exe, corpus):
 def run(ctx):
     ctx.level = "exploration"
     d = common.scratch()
-    exe = common.cc([DRV], d + "/c15", compiler="clang", san="asan", hooks=False)
+    exe = [("clang-O1-asan-ubsan", common.cc([DRV], d + "/c15", compiler="clang", san="asan", hooks=False))]
+    if not ctx.quick:
+        exe.append(("gcc-O2", common.cc([DRV], d + "/c15g", compiler="gcc", opt="-O2", hooks=False)))
+    ctx.cov["builds"] = [b for b, _ in exe]
     t = "" if ctx.quick else "_thorough"
     plan = [("GenDnsMsg", ["GenDnsMsg%s.cfg" % t, "GenDnsMsg_bound.cfg", "GenDnsMsg_chain.cfg"]),
             ("GenDnsName", ["GenDnsName%s.cfg" % t, "GenDnsName_bound.cfg"]),
